@@ -36,6 +36,7 @@ SOURCE_PARTS = [
     "ms { k = 1 }\nms { k = 2\n l = a b }\n", "ms { k = 1 }\n", "unknown = 1\n", "s.unknown = 2\n", "!a = 99\n", "d.e.f = 5\n", "dep = 3\n",
     "b = $a\n", "w = pre$(a)post\n", "a = $missing\n", "a = notanint\n", "s = 1\n",
 ]
+REG_TEXT = "d = 2\n  .type = length\nn = 3\n  .type = int\n"
 ARGS = ["a=3", "x=4", "z=True", "s.x=1", "f=9", "k=5", "y=abc", "nomatch=1", "t.z=no", "flag=off", "c=r"]
 
 
@@ -118,6 +119,33 @@ class Histories(Stream):
         self.fp = import_freephil()
         self.req = {}
 
+    def registries(self):
+        if not hasattr(self, "_regs"):
+            fp = self.fp
+            from freephil import tokenizer
+
+            def mk(k, factor):
+                class conv:
+                    phil_type = "length"
+
+                    def __str__(self):
+                        return self.phil_type
+
+                    def from_words(self, words, master):
+                        v = fp.str_from_words(words)
+                        return v if (v is None or v is fp.Auto) else float(v) * factor
+
+                    def as_words(self, python_object, master):
+                        if python_object is None:
+                            return [tokenizer.word(value="None")]
+                        return [tokenizer.word(value="%.10g" % (python_object / factor))]
+                conv.__name__ = "length_%d_converters" % k
+                conv.__qualname__ = conv.__name__
+                return conv
+            self._regs = [fp.extended_converter_registry([mk(0, 1.0)]), fp.extended_converter_registry([mk(1, 1000.0)])]
+            self.keep = []
+        return self._regs
+
     def cases(self, rng, tier):
         n = 400 if tier == "quick" else 6000
         for _ in range(n):
@@ -128,7 +156,7 @@ class Histories(Stream):
             ops = []
             for _ in range(rng.randint(6, 18)):
                 op = rng.choice(["fetch", "fetch", "fetch_track", "diff", "extract", "format", "clone", "show", "arg", "pickle", "deepcopy",
-                                 "shallow_edit", "result_edit", "deep_edit", "resolve", "repeat", "repeat"])
+                                 "shallow_edit", "result_edit", "deep_edit", "resolve", "repeat", "repeat", "parse_reg"])
                 ops.append([op, rng.randrange(1 << 30)])
             yield {"master": master, "sources": sources, "ops": ops}
 
@@ -243,6 +271,22 @@ class Histories(Stream):
                     if r[0] == "ok":
                         for o in r[1].objects[:3]:
                             self.assign_fields(o, rr)
+                elif op == "parse_reg":
+                    # the same text parsed with one of two converter registries that bind one type name to different
+                    # converters (and, half of the time, kept alive): the result depends on the arguments only
+                    k = rr.randrange(2)
+                    factor = (1.0, 1000.0)[k]
+                    def f(k=k):
+                        m = fp.parse(input_string=REG_TEXT, converter_registry=self.registries()[k])
+                        if rr.random() < 0.5:
+                            self.keep.append(m)
+                            del self.keep[:-4]
+                        return [m.as_str(attributes_level=3), m.extract().d, m.extract().n,
+                                type(m.get("d", with_substitution=False).objects[0].type).__name__]
+                    r = run("parse_reg %d" % k, f)
+                    if r[0] != "ok" or r[1][1] != 2 * factor or r[1][2] != 3 or r[1][3] != "length_%d_converters" % k:
+                        problems.append("parse with converter registry %d gave %r, expected d = %r by converter length_%d" % (
+                            k, r, 2 * factor, k))
                 elif op == "repeat" and done:
                     desc, thunk, first = rr.choice(done)
                     again = safe(thunk)
